@@ -60,7 +60,9 @@ Stmts(tr, id) ==
               [] tr.w = "else" -> <<[k |-> "if", c |-> Cond, t |-> Block(<<Plain(id * 8 + 4)>>), e |-> bare]>>
               [] tr.w = "for" -> <<[k |-> "for", init |-> Decl(i, Lit(0)), c |-> Less2(i),
                                     inc |-> [k |-> "inc", op |-> "+", pre |-> TRUE, n |-> i], b |-> bare]>>
-              [] tr.w = "while" -> <<Block(<<Decl(i, Lit(0)),
+              [] tr.w = "while" -> IF tr.t.k = "L" /\ tr.t.x = "b" /\ id % 2 = 1
+                                   THEN <<Block(<<Decl(i, Lit(0)), [k |-> "while", c |-> Less2(i), b |-> inner[1]]>>)>>      \* while (c) break;
+                                   ELSE <<Block(<<Decl(i, Lit(0)),
                                             [k |-> "while", c |-> Less2(i), b |-> Block(<<IncS(i)>> \o inner)]>>)>>
               [] tr.w = "do" -> <<Block(<<Decl(i, Lit(0)),
                                          [k |-> "do", b |-> Block(<<IncS(i)>> \o inner), c |-> Less2(i)]>>)>>
